@@ -50,10 +50,16 @@ def run(unit, em):
         for n in fn.walk():
             if n['k'] != 'IfStmt':
                 continue
-            for pol, atom in conjuncts(n['c'], True):
+            from .prov import bool_leaves
+            seen = set()
+            cands = [(pol, atom) for pol, atom in conjuncts(n['c'], True)]
+            # a size comparison that takes part in the decision through `||` or through a bool local licenses the branch as well
+            cands += [(True, leaf) for leaf in bool_leaves(fn, n['c'])]
+            for pol, atom in cands:
                 sc = size_cmp(atom) if pol else None
-                if not sc:
+                if not sc or id(strip(atom)) in seen:
                     continue
+                seen.add(id(strip(atom)))
                 how = shares_input(unit, n.get('th'))
                 txt = unit.text(atom, 90)
                 if how:
